@@ -421,3 +421,12 @@ Definition node_full : Prop :=
 
 Theorem node_full_refuted : ~ node_full.
 Proof. intros H. specialize (H k_Data [120%N]). discriminate H. Qed.
+
+(* which add_file calls are refused: a bad name first, then a bad content; everything else is stored *)
+Theorem blob_add_spec : forall name x,
+  blob_add name x =
+    match name_refusal name with
+    | Some e => Err e
+    | None => match x with FNotBytes | FBytes [] => Err ValueErr | FBytes b => Ok b end
+    end.
+Proof. intros name x. unfold blob_add. destruct (name_refusal name); [reflexivity|]. destruct x as [[|c b]|]; reflexivity. Qed.
